@@ -7,6 +7,7 @@ CONSTANTS
  Honest <- %(honest)s
  FixF3 = %(f3)s
  FixF4 = %(f4)s
+ FixF15 = %(f15)s
  Prog <- %(prog)s
  UseDFrom <- %(dfrom)s
  DFromWho <- %(who)s
@@ -20,9 +21,9 @@ PROPERTIES DeliveryStepP %(props)s
 CHECK_DEADLOCK FALSE
 %(tail)s
 """
-SAFE = "Agreement NoDuplicate Integrity QValidity QTotality"
+SAFE = "Agreement NoDuplicate Integrity QValidity QTotality KnownIsAccepted"
 def cfg(name, **kw):
-    d = dict(spec="MCSpec", n=4, t=1, honest="H3", f3="TRUE", f4="TRUE", prog="P_one3", dfrom="None", who="AllParties", budget=0,
+    d = dict(spec="MCSpec", n=4, t=1, honest="H3", f3="TRUE", f4="TRUE", f15="TRUE", prog="P_one3", dfrom="None", who="AllParties", budget=0,
              alpha="None", chan="Empty", fifo="TRUE", gen=0, inv=SAFE, props="", tail="VIEW View")
     d.update(kw)
     open(name + ".cfg", "w").write(base % d)
@@ -37,6 +38,7 @@ cfg("MC_RBC_sw", prog="P_switch3")                                     # nested 
 cfg("MC_RBC_sw2", prog="P_switch3n")                                   # enter, broadcast, leave
 # --- the pinned behaviour (findings F3 / F4) must be found by TLC: documentation + self-test of the model
 cfg("MC_RBC_nf_pinned", chan="ChanA", fifo="FALSE", budget=3, alpha="AlphaNFHelp", f3="FALSE")
+cfg("MC_RBC_b2_pinned", prog="P_one3", budget=2, alpha="AlphaForge", f15="FALSE")   # payload after the ready quorum (finding F15)
 # --- liveness with DeliverFrom consumers (n=2, t=0 and n=3, t=0: thresholds are irrelevant for F4)
 LIVE = dict(spec="FairSpec", props="EventuallyReturned EventuallyDelivered", tail="")
 cfg("MC_RBC_df2", n=2, t=0, honest="H2", prog="P_df2", dfrom="D1", who="W0", **LIVE)
